@@ -59,7 +59,12 @@ func TestReplay(t *testing.T) { harness.ReplayPath(t) }
 //	explicit-base-data-offset  tfhd.base_data_offset (absolute file position of the moof) is written back unchanged
 //	                           although InitProtect grew the init segment (sinf, pssh): every trun then addresses
 //	                           bytes in front of its mdat payload; DecryptSegment fails or decrypts the wrong bytes.
+//	sidx                       DecryptSegment (mp4/crypto.go) drops the sidx boxes of a segment on purpose ("since not
+//	                           modified properly": the moof boxes shrink, the referenced sizes would be stale), and
+//	                           cmd/mp4ff-decrypt writes init + segments only, which loses a sidx behind moov: a box
+//	                           that is not protection signalling is not kept. Repair = recomputing the references.
 var avoidKnown = map[string]bool{
+	cryptgen.FeatSidx:           true,
 	cryptgen.FeatUUIDInTraf:     false, // repaired in /repo
 	cryptgen.FeatPrftBeforeMoof: false, // repaired in /repo
 	cryptgen.FeatExplicitBase:   true,
